@@ -75,7 +75,7 @@ TRUSTED = [
     "(RootOk), so it covers the float behaviour too; equality of model and code is checked by correspondence (exhaustive sweep over all fine <= 12 (1-d), 10x10, 6x6x6, 3^4 and ~40 targets each "
     "at build time: 13252 calls, 0 differences; random calls on every run incl. perfect powers)",
     "partition_coordinates: the box search is modelled over exact rationals (inputs = the binary64 centres/extents as exact rationals); the float code evaluates min + dx*k with rounding, so cases in "
-    "which a centre is within 1e-9 of a box boundary are not compared (counted in input_distribution; exact hits with binary64-exact box edges are compared). The preparation of the inputs "
+    "which a centre is within 1e-9 (relative to the coordinate scale; found by thorough seed 9 on a grid scaled by 2^24, corpus pcoord-knife-edge-scale24) of a box boundary are not compared (counted in input_distribution; exact hits with binary64-exact box edges are compared). The preparation of the inputs "
     "(map_grid to natural coordinates, node extent, delta_int = ceil(n^(1/d)*delta/min delta)) is float glue done by the harness with the same calls as the code; the check_connectivity branch is not modelled",
     "grid_is_connected (networkx) is checked by the oracle only; partition_metis is skipped (pymetis not installed)",
     "modelled, not verified: scipy csc construction from (data, indices, indptr) keeps the stored order; coo->csc conversion in _extract_cells_from_faces_3d (columns compared as sorted "
@@ -625,7 +625,7 @@ def model_decode(outs, case):
 
 
 HYP_COUNTS = {"dims_ok": 0, "dims_not_ok": 0, "centres_inside": 0, "centres_outside": 0}
-PCOORD_SKIPPED = [0, 0]  # [compared, skipped because a centre is within 1e-9 of a box boundary]
+PCOORD_SKIPPED = [0, 0]  # [compared, skipped because a centre is within 1e-9 (relative to the coordinate scale) of a box boundary]
 
 
 def compare(impl, model, case):
@@ -647,9 +647,11 @@ def compare(impl, model, case):
         # the float code and the exact model may legitimately differ when a cell centre is within rounding distance of a box
         # boundary; such cases are not compared, unless the boundary is hit exactly and every box edge is binary64-exact
         margin = Fraction(model["margin"])
-        if margin < Fraction(1, 10**9):
-            g = build_grid(case["grid"])
-            _, lo, hi, delta, _ = _pcoord_inputs(g, case["num"])
+        g = build_grid(case["grid"])
+        _, lo, hi, delta, _ = _pcoord_inputs(g, case["num"])
+        # knife edge = within 1e-9 of a box boundary RELATIVE to the size of the coordinates involved (min + dx*k is rounded at that scale)
+        scale = Fraction(max(float(np.max(np.abs(lo))), float(np.max(np.abs(hi))), float(np.max(delta))))
+        if margin < scale / 10**9:
             exact = all(Fraction(float(d)) / c == Fraction(float(d) / c) for d, c in zip(delta, model["coarse"]))
             if not (margin == 0 and exact):
                 PCOORD_SKIPPED[1] += 1
